@@ -374,6 +374,18 @@ func CheckC14(e *Env) int {
 			g.P.PkgVars = []string{`func err() {}`, `type cleanup struct{}`}
 			g.P.PkgIdents = []string{"err", "cleanup"}
 		}
+		if i%4 == 2 {
+			// the user already owns the name wire would give a value variable
+			for _, it := range g.P.Items {
+				if it.Kind == KValue && it.Out.K == "named" && !it.Out.Decl.Alias && it.Out.Decl.TParams == 0 {
+					n := it.Out.Decl.Name
+					vn := "_wire" + strings.ToUpper(n[:1]) + n[1:] + "Value"
+					g.P.PkgVars = append(g.P.PkgVars, "var "+vn+" = \"user-owned\"")
+					g.P.PkgIdents = append(g.P.PkgIdents, vn)
+					break
+				}
+			}
+		}
 		g.P.Feat["naming"] = "neutral"
 		progs = append(progs, g.P)
 		idOf[g.P.ID] = key{i, 0}
